@@ -267,6 +267,7 @@ func init() {
 		rulePresenceByNil(prog, rep)
 		ruleIndexLE(prog, rep, "jp")
 		ruleFullRange(prog, rep, 3, "jp")
+		ruleFlagConsist(prog, rep, 1, "jp") // the *One entries hand "stop after the first change" to the shared worker in every branch
 	}
 }
 
